@@ -5,7 +5,7 @@ Vocabulary
             Controller.__init__ / Catalog.__init__, which reject empty lists; exercised natively in
             bounded/c16_native.py)
   NOCAT(c)  `c.controlled_catalogs` is empty.  It is initialised to [] and no statement of the package
-            ever adds to it (static obligation C16:static:controlled_catalogs-never-filled), so the loop of
+            ever adds to it (static obligation C16:static:Controller.controlled_catalogs:never-filled), so the loop of
             set_index is vacuous and catalogs follow their controller only through
             `Catalog.selected` reading `controlled_by.current_index` (contract below).
   CC_WF(cc) central-controller invariant: every value of `dict_of_controllers` satisfies C_WF and NOCAT and is
@@ -30,15 +30,6 @@ field_type('CentralController', 'controllers', 'list[biogeme.controller.Controll
 field_type('CentralController', 'dict_of_controllers', 'dict[str, biogeme.controller.Controller]')
 field_type('Catalog', 'controlled_by', 'biogeme.controller.Controller')
 field_type('Catalog', 'named_expressions', 'list[biogeme.expressions.multiple_expressions.NamedExpression]')
-
-
-def c_wf(c: str) -> dict[str, str]:
-    return {
-        'nonempty': f'len({c}.specification_names) >= 1',
-        'cur_in_range': f'0 <= {c}.current_index < len({c}.specification_names)',
-        'index_table': f"forall(lambda k: implies(k in {c}.dict_of_index, "
-                       f"0 <= {c}.dict_of_index[k] < len({c}.specification_names)), ty='str')",
-    }
 
 
 def in_range(c: str) -> str:
@@ -99,7 +90,7 @@ contract(Q + 'Controller.set_name', 'C16',
 
 contract(Q + 'Controller.modify_controller', 'C16',
          types={'step': 'int', 'circular': 'bool'},
-         requires={'nonempty': c_wf('self')['nonempty']},      # the index itself may be anything: the result is in range
+         requires={'nonempty': 'len(self.specification_names) >= 1'},      # the index itself may be anything: the result is in range
          modifies=['*.current_index'],
          ensures={
              'closure': in_range('self'),
@@ -207,7 +198,7 @@ APPLIED = (f"forall(lambda q: {_D}[{_SEL}[q].controller].current_index == "
 # A Configuration never lists a controller twice: class invariant of Configuration, assumed wherever
 # `.selections` is read (pyvc/libext/c16_modconst.py) -- the only writer of the private list is the property
 # setter, which calls __check_list_validity (contract in c16_configuration.py; static obligation
-# C16:static:Configuration.selections-only-written-by-validating-setter).
+# C16:static:Configuration.selections:only-written-by-validating-sorting-setter).
 _KNOWN = f"forall(lambda q: {_SEL}[q].controller in {_D}, 0, LIM)"
 
 contract(Q + 'CentralController.set_configuration', 'C16',
